@@ -418,11 +418,11 @@ def cases(tier, seed):
     for cls in CLASSES:
         variants = ['bib'] if cls == 'none' else ['bib', 'bcb']
         for variant in variants:
-            out.append(dict(id='%s-%s' % (cls, variant), cls=cls, variant=variant, seed=seed * 37 + idx, reps=(30 if tier == 'thorough' else 1)))
+            out.append(dict(id='%s-%s' % (cls, variant), cls=cls, variant=variant, seed=seed * 37 + idx, reps=(150 if tier == 'thorough' else 1)))
             idx += 1
     out.append(dict(id='x5t-history', cls='x5t-history', variant='bib', seed=seed, reps=1))
     out.append(dict(id='cert-variants', cls='cert-variants', variant='bib', seed=seed, reps=1))
-    out.append(dict(id='fragmented', cls='fragmented', variant='bib', seed=seed, reps=1, count=(120 if tier == 'thorough' else 16)))
+    out.append(dict(id='fragmented', cls='fragmented', variant='bib', seed=seed, reps=1, count=(1200 if tier == 'thorough' else 16)))
     return out
 
 
